@@ -1,6 +1,9 @@
-(** Copying a NESTED instance requirement of a contributor into the aggregator ([remap_item_kind] / [remap_interface] on
-    a tree-shaped, not yet seen interface): the copy denotes the same tree, uses only interfaces appended by this copy
-    (hence is tree-shaped again and disjoint from everything that was there), and leaves everything else alone. *)
+(** Copying a NESTED instance requirement of a contributor into the aggregator ([remap_item_kind] / [remap_interface]):
+    the copy denotes the same tree and uses only interfaces appended by this copy - one per MENTION of an anonymous
+    interface of the contributor, so the copy is tree-shaped ([Den]) even when the contributor shares interfaces between
+    several places ([SDen]) - hence it is disjoint from everything that was there, and everything else is left alone.
+    Anonymous interfaces are neither looked up in nor recorded in the remap table; a root interface with an identifier is
+    recorded (it must not have been recorded before). *)
 From Coq Require Import ZArith ZifyBool ZifyN Lia.
 From WacV Require Import Str Names Types Checker SubSpec CheckerEq CheckerValue CheckerProofs SubSpecProofs.
 From WacV Require Import Aggregator AggregatorSpec AggregatorFrame AggregatorRemap AggregatorChecker AggregatorNames
@@ -17,18 +20,19 @@ Section NCopy.
   Hypothesis Ct : Col t.
   Notation MI := (MInv Col tag0).
 
-  Definition RKpost (d : nat) (idb : list id) (tr : tree) (c : core) (k' : kind) (c' : core) : Prop :=
+  Definition RKpost (d : nat) (tr : tree) (c : core) (k' : kind) (c' : core) : Prop :=
     exists ids', Den d (c_types c') k' tr ids' /\ MI c' /\ AExt c c' /\ c_ifaces c' = c_ifaces c /\
-                 newids c ids' /\ rm_frame idb c c'.
+                 newids c ids' /\ rm_frame [] c c'.
   Definition RK (d : nat) : Prop := forall F k tr idb c k' c',
-    MI c -> Den d t k tr idb -> fresh idb c -> remap_item_kind ord cf F t k c = AOk (k', c') -> RKpost d idb tr c k' c'.
+    MI c -> SDen d t k tr idb -> remap_item_kind ord cf F t k c = AOk (k', c') -> RKpost d tr c k' c'.
   Definition RI (d : nat) : Prop := forall F i oid e idsb c y c',
-    MI c -> IDen d t i oid e idsb -> fresh idsb c ->
-    (forall nm, oid = Some nm -> assoc nm (c_ifaces c) = None /\ find_compat nm (ord (c_ifaces c)) = None) ->
+    MI c -> SIDen d t i oid e idsb ->
+    (forall nm, oid = Some nm -> assoc nm (c_ifaces c) = None /\ find_compat nm (ord (c_ifaces c)) = None /\
+                                 rm_get (TInterface i) (c_remapped c) = None) ->
     remap_interface ord cf F t i c = AOk (y, c') ->
-    exists ids', IDen d (c_types c') y oid e ids' /\ MI c' /\ AExt c c' /\ newids c ids' /\ rm_frame idsb c c' /\
-      c_ifaces c' = match oid with Some nm => ins nm y (c_ifaces c) | None => c_ifaces c end /\
-      rm_get (TInterface i) (c_remapped c') = Some (TInterface y).
+    exists ids', IDen d (c_types c') y oid e ids' /\ MI c' /\ AExt c c' /\ newids c ids' /\
+      rm_frame (match oid with Some _ => [i] | None => [] end) c c' /\
+      c_ifaces c' = match oid with Some nm => ins nm y (c_ifaces c) | None => c_ifaces c end.
 
   Lemma MI_AExt c c' : MI c -> AExt c c' -> RInv Col c' -> MI c'.
   Proof.
@@ -39,29 +43,23 @@ Section NCopy.
 
   (** the exports of an interface, one after the other *)
   Lemma copy_kids d (HK : RK d) F : forall exs e own c es c',
-    MI c -> kids (Den d t) own exs e -> NoDup (map fst exs) ->
-    (forall n m j, In n (map fst exs) -> In m (map fst exs) -> n <> m -> In j (own n) -> ~ In j (own m)) ->
-    (forall n, In n (map fst exs) -> fresh (own n) c) ->
+    MI c -> kids (SDen d t) own exs e -> NoDup (map fst exs) ->
     mapM (fun nk : str * kind => k' <-- remap_item_kind ord cf F t (snd nk) ;;; ret (fst nk, k')) exs c = AOk (es, c') ->
     exists own', map fst es = map fst exs /\ kids (Den d (c_types c')) own' es e /\ MI c' /\ AExt c c' /\
       c_ifaces c' = c_ifaces c /\
       (forall n, In n (map fst exs) -> newids c (own' n)) /\
       (forall n m j, In n (map fst exs) -> In m (map fst exs) -> n <> m -> In j (own' n) -> ~ In j (own' m)) /\
-      rm_frame (flat_map own (map fst exs)) c c'.
+      rm_frame [] c c'.
   Proof.
-    induction exs as [|[n k] exs IH]; intros e own c es c' I K ND Hdisj Hfresh H; cbn [mapM] in H.
+    induction exs as [|[n k] exs IH]; intros e own c es c' I K ND H; cbn [mapM] in H.
     - apply ret_ok in H as [-> ->]. inversion K; subst. exists own. split; auto. split; [constructor|]. split; auto.
       split; [apply AExt_refl|]. split; auto. split; [intros ? []|]. split; [intros ? ? ? []|apply rm_frame_refl].
     - inversion K as [|? [n' tr] ? e0 [En Hk] K0]; subst. cbn [fst snd] in *. subst n'.
       cbn [map fst] in ND. inversion ND as [|? ? Hn ND']; subst.
       apply bindM_ok in H as [y [c1 [H1 H]]]. apply bindM_ok in H as [ys [c2 [H2 H]]]. apply ret_ok in H as [-> ->].
       apply bindM_ok in H1 as [k' [c0 [H0 H1]]]. apply ret_ok in H1 as [-> ->]. cbn [fst snd] in *.
-      destruct (HK F k tr (own n) c k' c0 I Hk (Hfresh n (or_introl eq_refl)) H0) as [ids1 [D1 [I1 [E1 [F1 [N1 R1]]]]]].
-      assert (Hfresh1 : forall m, In m (map fst exs) -> fresh (own m) c0).
-      { intros m Hm. eapply fresh_frame; [exact R1| |apply Hfresh; now right].
-        intros j Hj Hj'. apply (Hdisj m n j); auto; [now right | now left | intros ->; contradiction]. }
-      destruct (IH e0 own c0 ys c2 I1 K0 ND' (fun a b j Ha Hb => Hdisj a b j (or_intror Ha) (or_intror Hb)) Hfresh1 H2)
-        as [own' [Ky [K2 [I2 [E2 [F2 [N2 [D2 R2]]]]]]]].
+      destruct (HK F k tr (own n) c k' c0 I Hk H0) as [ids1 [D1 [I1 [E1 [F1 [N1 R1]]]]]].
+      destruct (IH e0 own c0 ys c2 I1 K0 ND' H2) as [own' [Ky [K2 [I2 [E2 [F2 [N2 [D2 R2]]]]]]]].
       assert (Hlt1 : forall j, In j ids1 -> (id_idx j < length (t_interfaces (c_types c0)))%nat).
       { intros j Hj. destruct (Den_exist _ _ _ _ _ D1 j Hj) as [z Hz]. now apply get_if_lt in Hz. }
       exists (upd own' n ids1). split; [cbn [map fst]; now rewrite Ky|]. split; [|split; [exact I2|]].
@@ -82,7 +80,7 @@ Section NCopy.
              pose proof (Hlt1 j Hjb). pose proof (N2 a Ha j Hja). lia.
           -- destruct Ha as [Ha|Ha]; [subst a; rewrite seqb_refl in Ean; discriminate|].
              destruct Hb as [Hb|Hb]; [subst b; rewrite seqb_refl in Ebn; discriminate|]. exact (D2 a b j Ha Hb Nab Hja Hjb).
-        * cbn [map fst flat_map]. eapply rm_frame_trans; eapply rm_frame_weaken; [| exact R1 | | exact R2]; intros j Hj; apply in_or_app; auto.
+        * eapply rm_frame_trans; eauto.
   Qed.
 
   Lemma ext_add_if T x : ext T (t_with_interfaces T (t_interfaces T ++ [x])).
@@ -90,41 +88,43 @@ Section NCopy.
 
   Lemma RI_of_RK d : RK d -> RI d.
   Proof.
-    intros HK F i oid e idsb c y c' I [exs [own [Hg [ND [K [[Sh1 Sh2] ->]]]]]] Hfresh Hlook H.
+    intros HK F i oid e idsb c y c' I [exs [own [Hg [ND [K [_ ->]]]]]] Hlook H.
     destruct F as [|f]; [discriminate|]. cbn [remap_interface] in H.
     apply bindM_ok in H as [x0 [c0 [H0 H]]]. rewrite Hg in H0. cbn [idxM] in H0. apply ret_ok in H0 as [-> ->].
     cbn [i_id i_uses i_exports] in H.
     apply bindM_ok in H as [hit [c0 [H0 H]]].
     assert (Hhit : hit = None /\ c0 = c).
     { destruct oid as [nm|].
-      - destruct (Hlook nm eq_refl) as [L1 L2]. apply bindM_ok in H0 as [e0 [c1 [H1 H0]]].
+      - destruct (Hlook nm eq_refl) as [L1 [L2 _]]. apply bindM_ok in H0 as [e0 [c1 [H1 H0]]].
         unfold lookup_iface in H1. rewrite L1, L2 in H1. injection H1 as <- <-. now apply ret_ok in H0 as [-> ->].
       - now apply ret_ok in H0 as [-> ->]. }
     destruct Hhit as [-> ->]. clear H0.
-    apply bindM_ok in H as [r [c0 [H0 H]]]. unfold remapped_get in H0. injection H0 as <- <-.
-    rewrite (Hfresh i (or_introl eq_refl)) in H.
+    apply bindM_ok in H as [r [c0 [H0 H]]].
+    assert (Hr : r = None /\ c0 = c).
+    { destruct oid as [nm|].
+      - unfold remapped_get in H0. injection H0 as <- <-. split; auto. now destruct (Hlook nm eq_refl) as [_ [_ L3]].
+      - now apply ret_ok in H0 as [-> ->]. }
+    destruct Hr as [-> ->]. clear H0.
     apply bindM_ok in H as [us [c0 [H0 H]]]. cbn [mapM] in H0. apply ret_ok in H0 as [-> ->].
     apply bindM_ok in H as [es [c1 [H1 H]]].
-    assert (Hfk : forall n, In n (map fst exs) -> fresh (own n) c).
-    { intros n Hn j Hj. apply Hfresh. right. apply in_flat_own. eauto. }
-    destruct (copy_kids d HK f exs e own c es c1 I K ND Sh2 Hfk H1) as [own' [Ky [K1 [I1 [E1 [F1 [N1 [D1 R1]]]]]]]].
+    destruct (copy_kids d HK f exs e own c es c1 I K ND H1) as [own' [Ky [K1 [I1 [E1 [F1 [N1 [D1 R1]]]]]]]].
     apply bindM_ok in H as [y0 [c2 [H2 H]]]. unfold add_if in H2. injection H2 as <- <-.
-    apply bindM_ok in H as [u [c3 [H3 H]]]. unfold remapped_new in H3. cbn [c_remapped with_types] in H3.
-    assert (Hi1 : rm_get (TInterface i) (c_remapped c1) = None).
-    { rewrite (R1 i); [apply Hfresh; now left|]. intros X. apply in_flat_own in X as [n [Hn Hj]]. exact (Sh1 n Hn Hj). }
-    rewrite Hi1 in H3. injection H3 as H3. subst c3.
     apply bindM_ok in H as [u2 [c4 [H4 H]]]. apply ret_ok in H as [-> ->].
     set (T1 := c_types c1) in *. set (newif := {| i_id := oid; i_uses := []; i_exports := es |}) in *.
     set (T2 := t_with_interfaces T1 (t_interfaces T1 ++ [newif])) in *.
     set (ynew := {| id_tag := t_tag T1; id_idx := length (t_interfaces T1) |}) in *.
-    set (c3 := with_remapped (with_types c1 T2) (rm_ins (TInterface i) (TInterface ynew) (c_remapped c1))) in *.
+    set (c3 := with_remapped (with_types c1 T2)
+                 (match oid with Some _ => rm_ins (TInterface i) (TInterface ynew) (c_remapped c1) | None => c_remapped c1 end)) in *.
     assert (Hc4 : c_types c4 = T2 /\ c_imports c4 = c_imports c1 /\ c_remapped c4 = c_remapped c3 /\ c_chk c4 = c_chk c1 /\
                   c_ifaces c4 = match oid with Some nm => ins nm ynew (c_ifaces c) | None => c_ifaces c end).
-    { destruct oid as [nm|].
-      - unfold iface_new in H4. cbn [c_ifaces c3 with_remapped with_types] in H4. rewrite F1 in H4.
-        destruct (Hlook nm eq_refl) as [L1 _]. unfold has_key in H4. rewrite L1 in H4. injection H4 as H4. subst c4.
-        cbn [c_types c_imports c_remapped c_chk c_ifaces with_ifaces with_remapped with_types c3]. auto.
-      - apply ret_ok in H4 as [_ ->]. cbn [c_types c_imports c_remapped c_chk c_ifaces with_remapped with_types c3].
+    { subst c3. destruct oid as [nm|].
+      - apply bindM_ok in H4 as [u [c3 [H3 H4]]]. unfold remapped_new in H3. cbn [c_remapped with_types] in H3.
+        destruct (Hlook nm eq_refl) as [L1 [_ L3]].
+        rewrite (R1 i (fun X => X)), L3 in H3. injection H3 as H3. subst c3.
+        unfold iface_new in H4. cbn [c_ifaces with_remapped with_types] in H4. rewrite F1 in H4.
+        unfold has_key in H4. rewrite L1 in H4. injection H4 as H4. subst c4.
+        cbn [c_types c_imports c_remapped c_chk c_ifaces with_ifaces with_remapped with_types]. auto.
+      - apply ret_ok in H4 as [_ ->]. cbn [c_types c_imports c_remapped c_chk c_ifaces with_remapped with_types].
         repeat split; auto. }
     destruct Hc4 as [Q1 [Q2 [Q3 [Q4 Q5]]]].
     assert (E2 : ext T1 T2) by apply ext_add_if.
@@ -139,7 +139,7 @@ Section NCopy.
       destruct (kids_assoc _ _ _ _ _ _ K1 (in_assoc _ _ _ ND Hin1)) as [tr0 [_ Hd]].
       destruct (Den_exist _ _ _ _ _ Hd j Hj) as [z Hz]. now apply get_if_lt in Hz. }
     exists (ynew :: flat_map own' (map fst es)). rewrite Q1, Q5.
-    split; [|split; [|split; [|split; [|split; [|split]]]]].
+    split; [|split; [|split; [|split; [|split]]]].
     - exists es, own'. split; [exact Hnewget|]. split; [now rewrite Ky|]. split; [|split; [|reflexivity]].
       + eapply kids_impl; [|exact K1]. intros n k tr _ Hd. eapply Den_frame; [exact E2| |exact Hd]. intros j z _. apply Hold.
       + rewrite Ky. split.
@@ -148,6 +148,7 @@ Section NCopy.
     - split.
       + rewrite Q1. cbn [t_tag T2 t_with_interfaces]. apply (mi_tag _ _ _ I1).
       + intros k k' Hk. rewrite Q3 in Hk. rewrite Q1. cbn [c_remapped c3 with_remapped] in Hk.
+        destruct oid as [nm|]; [|eapply entry_ok_ext; [exact E2|]; now apply (mi_rinv _ _ _ I1)].
         destruct (ty_eqb (TInterface i) k) eqn:Ek.
         * apply tyeqb_eq in Ek. subst k. cbn [entry_ok]. exact Logic.I.
         * rewrite rm_get_ins_other in Hk; [|intro X; apply tyeqb_eq in X; congruence].
@@ -164,11 +165,9 @@ Section NCopy.
     - intros j [<-|Hj].
       + cbn [id_idx ynew]. apply (AExt_len _ _ E1).
       + apply in_flat_own in Hj as [n [Hn Hj]]. rewrite Ky in Hn. exact (N1 n Hn j Hj).
-    - intros j Nj. rewrite Q3. cbn [c_remapped c3 with_remapped]. rewrite rm_get_ins_other.
-      + apply R1. intros X. apply Nj. now right.
-      + intros X. injection X as ->. apply Nj. now left.
+    - intros j Nj. rewrite Q3. cbn [c_remapped c3 with_remapped]. destruct oid as [nm|]; [|now apply R1].
+      rewrite rm_get_ins_other; [now apply R1|]. intros X. injection X as ->. apply Nj. now left.
     - reflexivity.
-    - rewrite Q3. cbn [c_remapped c3 with_remapped]. apply rm_get_ins_same.
   Qed.
 
   Lemma RK_0 : RK 0.
@@ -176,17 +175,17 @@ Section NCopy.
 
   Lemma RK_S d : RI d -> RK (S d).
   Proof.
-    intros HI F k tr idb c k' c' I HD Hfresh H. cbn [Den] in HD.
+    intros HI F k tr idb c k' c' I HD H. cbn [DenG] in HD.
     destruct HD as [[[L [U R]] ->]|[y0 [e [-> [-> HD]]]]].
     - destruct (leaf_sound ord cf Col Col_same t Ct F k tr c k' c' L (mi_rinv _ _ _ I) U R H) as [U1 [E1 [R1 L1]]].
-      exists []. split; [cbn [Den]; left; split; [split; [exact L1|split; [exact U1|exact R]]|reflexivity]|].
+      exists []. split; [cbn [DenG]; left; split; [split; [exact L1|split; [exact U1|exact R]]|reflexivity]|].
       split; [eapply MInv_ext; eauto|]. split; [now apply AExt_of_Ext|]. split; [apply E1|]. split; [intros ? []|].
       intros j _. apply (x_noif _ _ E1).
     - destruct F as [|f]; [discriminate|]. cbn [remap_item_kind] in H.
       apply bindM_ok in H as [y [c1 [H1 H]]]. apply ret_ok in H as [-> ->].
-      destruct (HI f y0 None e idb c y c1 I HD Hfresh (fun nm X => ltac:(discriminate)) H1)
-        as [ids' [D' [I' [E' [N' [R' [F' _]]]]]]].
-      exists ids'. split; [cbn [Den]; right; exists y, e; auto|]. auto 8.
+      destruct (HI f y0 None e idb c y c1 I HD (fun nm X => ltac:(discriminate)) H1)
+        as [ids' [D' [I' [E' [N' [R' F']]]]]].
+      exists ids'. split; [cbn [DenG]; right; exists y, e; auto|]. auto 8.
   Qed.
 
   Theorem RK_all : forall d, RK d.
